@@ -30,7 +30,7 @@ ATTR_KINDS = {"recv_stub": "KRecvStub", "loads": "KLoads", "loadsCall": "KLoadsC
               "validateHandshake": "KValidate", "_handshake": "KHandshake", "handleRequest": "KHandleRequest",
               "_clientDisconnect": "KClientDisconnect", "denyConnection": "KDenyConnection", "job": "KJob",
               "events": "KEvents", "_handleConnection": "KHandleConnection", "handleConnection": "KHandleConnection",
-              "_sendExceptionResponse": "KSendExc"}
+              "_sendExceptionResponse": "KSendExc", "_housekeeping": "KHousekeeping"}
 
 # calls the hand-written skeleton (Model/Containment.v) refers to: they must exist exactly this often
 REQUIRED = {("FHandshake", "KRecvStub"): 1, ("FHandshake", "KSend"): 1, ("FHandshake", "KValidate"): 1,
@@ -42,7 +42,9 @@ REQUIRED = {("FHandshake", "KRecvStub"): 1, ("FHandshake", "KSend"): 1, ("FHands
             ("FThrEvents", "KDenyConnection"): 1, ("FThrLoop", "KEvents"): 1,
             ("FMuxEvents", "KHandleConnection"): 1, ("FMuxEvents", "KHandleRequest"): 1,
             ("FMuxEvents", "KClientDisconnect"): 1, ("FMuxHandleConn", "KHandshake"): 1,
-            ("FMuxHandleReq", "KHandleRequest"): 1, ("FMuxLoop", "KEvents"): 1}
+            ("FMuxHandleReq", "KHandleRequest"): 1, ("FMuxLoop", "KEvents"): 1,
+            # housekeeping runs inside the multiplex request loop: where, and under which handler (none today), is recorded
+            ("FMuxEvents", "KHousekeeping"): 1, ("FMuxLoop", "KHousekeeping"): 1}
 AT_LEAST = {("FHandshake", "KDumps"): 2, ("FHandleRequest", "KSend"): 2, ("FHandleRequest", "KMethod"): 2,
             ("FHandleRequest", "KDumps"): 1, ("FHandleRequest", "KSendExc"): 1, ("FSendExc", "KDumps"): 2}
 
